@@ -7,6 +7,7 @@ in flight was waiting for has been cancelled, the source is closed exactly once.
 from __future__ import annotations
 
 from graphql import ExecutionResult, parse, subscribe, validate
+from graphql.execution import ExecutionHooks
 from graphql.execution.executor_throwing_on_incremental import ExecutorThrowingOnIncremental
 from graphql.pyutils import is_awaitable
 
@@ -22,6 +23,7 @@ from sim.world import Data, DocGen, SchemaSpec, build_world_schema
 
 from .c07 import Dispatcher, SourcePlan, SourceState, make_source
 from .common import await_site, bump, digest_of, pair_hash
+from .incremental import REACHED_AWAIT
 
 PROP = "C06"
 
@@ -42,7 +44,14 @@ def run_unit(seed=None, unit=None, tier="quick", stats=None, prop=PROP):
     data = Data(ptape.draw(1 << 16, "salt"))
     world = World(schema, spec, data, type_mode)
     gen = DocGen(ptape, spec, max_depth=3, budget=12)
+    # one document in three carries a second operation: the subscription is then selected by
+    # its operation name only
+    extra = ptape.draw(3, "extra_op")
+    if extra == 1:
+        gen.operation("query")
     opname = gen.operation("subscription")
+    if extra == 2:
+        gen.operation("query")
     text = gen.document()
     doc = parse(text)
     if validate(schema, doc):
@@ -87,6 +96,16 @@ def run_unit(seed=None, unit=None, tier="quick", stats=None, prop=PROP):
             return make_source(sim, sp, events, src_exc, sst)
 
         holder = {"executor": None}
+        hook_log = []  # (event index or None, pending tracked type checks of that event)
+
+        def hook(info_):
+            root = getattr(info_.executor, "root_value", None)
+            j = root.get("__ev") if isinstance(root, dict) else (
+                sp.none_event if root is None else None)
+            tracked = [e.label for e in sim.externals
+                       if e.kind == "ito" and e.owner == j and e.is_pending()
+                       and bool(getattr(e.fut, "_callbacks", None))]
+            hook_log.append((j, tracked[:3]))
 
         class Recording(ExecutorThrowingOnIncremental):
             """The stock subscription executor; only remembers the instance for probes."""
@@ -103,7 +122,8 @@ def run_unit(seed=None, unit=None, tier="quick", stats=None, prop=PROP):
             try:
                 res = subscribe(schema, doc, {"__oid": 1, "__t": "Root", "__path": ()}, disp,
                                 variables, opname, subscribe_field_resolver=sub_resolver,
-                                executor_class=Recording)
+                                executor_class=Recording,
+                                hooks=ExecutionHooks(async_work_finished=hook))
                 if is_awaitable(res):
                     res = await res
             except Exception as e:  # noqa: BLE001
@@ -147,6 +167,7 @@ def run_unit(seed=None, unit=None, tier="quick", stats=None, prop=PROP):
                 out["responses"] += 1
                 k += 1
 
+        REACHED_AWAIT.clear()
         alloc.activate(al)
         try:
             status = sim.run(main())
@@ -176,6 +197,7 @@ def run_unit(seed=None, unit=None, tier="quick", stats=None, prop=PROP):
             bump(stats, "probes", "sub_closed_before_first_pull",
                  1 if out["closed"] and close_after == 0 else 0)
             bump(stats, "probes", "sub_externals_frozen_at_close", out["frozen"])
+            bump(stats, "probes", "sub_event_hooks_fired", len(hook_log))
         vs = []
         fp = {"world": "SUB", "shape": sp.shape, "closed_before_first_pull": close_after == 0}
         if status == "stepcap":
@@ -187,6 +209,24 @@ def run_unit(seed=None, unit=None, tier="quick", stats=None, prop=PROP):
             if out["error"] is not None:
                 vs.append(Violation(prop, "bad_outcome", dict(fp, type=type(out["error"]).__name__),
                                     {"error": repr(out["error"])}))
+            # the work-finished hook of an event: once per response, and not while a type
+            # check of that event which the executor tracks (awaits in the background) is pending
+            early = [(j, tr) for j, tr in hook_log if tr]
+            if early:
+                vs.append(Violation(prop, "hook_early", dict(
+                    fp, unsettled="tracked_type_check", tracked_background_pending=True),
+                    {"event": early[0][0], "pending": early[0][1]}))
+            per_event = {}
+            for j, _tr in hook_log:
+                per_event[j] = per_event.get(j, 0) + 1
+            twice = sorted(j for j, n_ in per_event.items() if n_ > 1 and j is not None)
+            if twice:
+                vs.append(Violation(prop, "hook_count", dict(fp, count=2),
+                                    {"events": twice[:4]}))
+            missing = [j for j in range(out["responses"]) if per_event.get(j, 0) == 0]
+            if missing:
+                vs.append(Violation(prop, "hook_count", dict(fp, count=0),
+                                    {"events": missing[:4]}))
             left = [t for t in sim.unfinished_tasks()
                     if t.get_name() not in ("main", "pump")]
             if left:
@@ -201,7 +241,8 @@ def run_unit(seed=None, unit=None, tier="quick", stats=None, prop=PROP):
                 if still:
                     vs.append(Violation(prop, "hanging_external_not_cancelled", dict(
                         fp, kind=still[0].kind,
-                        still_awaited=any(bool(getattr(e.fut, "_callbacks", None)) for e in still)),
+                        still_awaited=any(bool(getattr(e.fut, "_callbacks", None)) for e in still),
+                        reached_await=any(id(e.fut) in REACHED_AWAIT for e in still)),
                         {"externals": [e.label for e in still][:5]}))
                 if sst.started and sp.shape != "class_noclose":
                     done_by_itself = sst.ended or sst.failed
